@@ -183,8 +183,7 @@ def discharge(ob, timeout_ms=20000, use_cvc5=True, cross=False, shared=None):
             ob.verdict = "unknown"
             ob.note = "z3: " + s.reason_unknown() + " | cvc5: %s %s" % (res, err.strip().replace("\n", " ")[:160])
             if res == "sat":
-                ob.verdict, ob.backend = "refuted", "cvc5-1.0.3"
-                ob.note += " (no model extracted)"
+                ob.note += " | cvc5 answers sat but gives no model to validate or replay: kept undecided"
             return ob
     elif r == z3.unknown and timeout_ms > 3000:
         s = _mk_solver(ob, timeout_ms)
@@ -196,7 +195,18 @@ def discharge(ob, timeout_ms=20000, use_cvc5=True, cross=False, shared=None):
     elif r == z3.sat:
         ob.verdict = "refuted"
         try:
-            ob.model = model_to_dict(s.model())
+            m = s.model()
+            ob.model = model_to_dict(m)
+            # z3's sequence procedure occasionally returns `sat` with an assignment that does not satisfy the query;
+            # a counter-model is only believed when every hypothesis and the negated goal evaluate to true in it
+            bad = 0
+            for t in list(ob.pc) + [z3.Not(ob.goal)]:
+                v = m.eval(t, model_completion=True)
+                if z3.is_false(v):
+                    bad += 1
+            if bad:
+                ob.verdict = "unknown"
+                ob.note = "z3 returned sat but its model falsifies %d hypothesis/goal term(s): answer not trusted" % bad
         except Exception as e:  # pragma: no cover
             ob.model = {"_error": str(e)}
     else:
@@ -210,8 +220,7 @@ def discharge(ob, timeout_ms=20000, use_cvc5=True, cross=False, shared=None):
             if res == "unsat":
                 ob.verdict, ob.backend = "proved", "cvc5-1.0.3"
             elif res == "sat":
-                ob.verdict, ob.backend = "refuted", "cvc5-1.0.3"
-                ob.note += " | cvc5: sat (no model extracted)"
+                ob.note += " | cvc5: sat (no model to validate or replay: kept undecided)"
             else:
                 ob.note += " | cvc5: %s %s" % (res, err.strip().replace("\n", " ")[:160])
         else:
